@@ -299,6 +299,11 @@ def layout_data_written(ck, L):
             e = H.strip_refs(e)
             while e.get('k') == 'MCall' and e.get('m') in ('as_ref', 'as_deref', 'iter', 'as_slice', 'clone') and not e['args']:
                 e = H.strip_refs(e['recv'])
+            # a local alias of the field (`let widths = &self.attributes.column_minimum_width;`) stands for it
+            if e.get('k') == 'Path' and e.get('res') == 'local':
+                b_ = H.binding_sites(fn).get(e.get('hid')) or {}
+                if b_.get('kind') == 'let' and b_.get('pat', {}).get('k') == 'Bind' and b_['node'].get('init') is not None:
+                    return field_path(b_['node']['init'])
             t = pp(e, maxlen=80)
             return t if e.get('k') == 'Field' and t.startswith('self.') else None
 
@@ -392,7 +397,7 @@ def layout_data_written(ck, L):
             # the data whose presence decides is the data that is written
             val = tup['es'][1] if len(tup['es']) > 1 else None
             if val is not None:
-                vfields = {field_path(x) for x in walk(val) if x.get('k') == 'Field'} - {None}
+                vfields = {field_path(x) for x in walk(val) if x.get('k') in ('Field', 'Path')} - {None}
                 vlocals = {x.get('hid') for x in walk(val) if x.get('k') == 'Path' and x.get('res') == 'local'}
                 for kind, hids, fp in guards:
                     if (kind == 'field' and fp not in vfields) or (kind == 'bound' and not (hids & vlocals) and fp not in vfields):
